@@ -16,7 +16,7 @@ ASSUMPTIONS = [
 EVAL = ['cases']
 DISTINCT = ['config', 'schedule']
 REQUIRED = ['cases', 'sessions_completed', 'records_protected', 'c06_checks', 'param_compares',
-            'ossl_sessions_completed']
+            'ossl_sessions_completed', 'ossl_mfl_echoed']
 NW = 16
 
 
